@@ -119,6 +119,7 @@ func genPlan(t *rapid.T) graph.WrapPlan {
 		Early:  rapid.IntRange(0, 1).Draw(t, "early"),
 		Before: rapid.SampledFrom([]int{0, 0, 0, 1}).Draw(t, "before"),
 		After:  rapid.IntRange(0, 3).Draw(t, "after"),
+		Inst:   rapid.SampledFrom([]int{0, 0, 0, 0, 1}).Draw(t, "inst"),
 	}
 }
 
